@@ -222,6 +222,14 @@ STRUCT = [
     ("null-required", "TextDocumentIdentifier", {"uri": None}),
 ]
 
+# the user's OWN classes over the generic types for which get_converter registers hooks on their converter
+STRUCT += [
+    ("user-thing-int", "UserThing", {"ident": 7, "flag": True, "anything": {"a": [1, None]}, "maybe_id": "x", "nothing": None, "label": [1, 2]}),
+    ("user-thing-str", "UserThing", {"ident": "seven", "flag": "yes", "anything": False, "label": "lbl"}),
+    ("user-thing-odd", "UserThing", {"ident": 1.5, "flag": 3, "maybe_id": None}),
+    ("user-box", "UserBox", {"things": [{"ident": 1}, {"ident": "b", "label": [3, 4]}], "position": {"line": 1, "character": 2}}),
+]
+
 # large payloads (what real servers send): size-dependent fast paths must not change results nor affect
 # other converters while they run
 def _big(n):
